@@ -576,6 +576,13 @@ func (l *IPFSLog) Join(otherLog iface.IPFSLog, size int) (iface.IPFSLog, error) 
 				return
 			}
 
+			// An entry filed under another hash than the one it carries would be
+			// stored under the hash it carries, in place of whatever the log holds there.
+			if e.GetHash().String() != k {
+				setErr(errmsg.ErrLogJoinFailed)
+				return
+			}
+
 			if inErr := l.AccessController.CanAppend(e, l.Identity.Provider, &CanAppendContext{log: l}); inErr != nil {
 				setErr(inErr)
 				return
